@@ -93,6 +93,7 @@ type Ctx struct {
 	usesObjKey  bool
 	usesErrWraps bool
 	ghostFired  map[*GhostStmt]bool
+	privBoxes   map[*ssa.Function][]*ssa.Alloc
 	skippedAbs  map[int]int // loop ordinal -> obligations not generated because the loop is declared abstract
 	defs        map[string]string
 	paramTerms  []Value
